@@ -382,7 +382,7 @@ func propC19Validate(c model.Case) hh.Verdict {
 
 func TestC19(t *testing.T) {
 	h := hh.Start(t, "C19",
-		"cases = one schema (slice and primitive defaults, catch values, OneOf lists, Contains values, destination-mutating PostTransforms) and a history of 2-6 executions in both modes, some repeated verbatim, some with an execution-level formatter of their own; inputs are nested maps / slices, optionally behind one or two pointers, requests handed to zhttp (form bodies and query strings with list parameters, parsed three times each), or Go values of the destination's own type (same pointer, slice and struct types as the destination); non-trivial = a slice default exists and an execution follows one whose destination was scribbled over, or the input holds nested maps/slices; distinct = FNV-1a of the case JSON",
+		"cases = one schema (slice and primitive defaults, catch values, OneOf lists, Contains values, destination-mutating PostTransforms) and a history of 2-6 executions in both modes, some repeated verbatim, some with an execution-level formatter of their own; inputs are nested maps / slices, optionally behind one or two pointers, requests handed to zhttp (form bodies and query strings with list parameters, parsed three times each), or Go values of the destination's own type (same pointer, slice and struct types as the destination); sub-check validate-value: Validate-only cases with Preprocess wrappers, Defaults and Catch values whose whole value afterwards is compared with the specification's (non-trivial there = a Preprocess function failed, or the value changed while issues were reported); non-trivial = a slice default exists and an execution follows one whose destination was scribbled over, or the input holds nested maps/slices; distinct = FNV-1a of the case JSON",
 		"invariants after every step: deep snapshot of the input unchanged; deep snapshots of every reference-typed value handed to the schema at construction unchanged, also after the harness overwrites every part of the returned destination (incl. spare slice capacity); a verbatim repeated execution gives the same issues and destination as the first time; Validate leaves the value unchanged when the schema has no Default, Catch or PostTransform",
 		"schema-owned values are observed through the references the harness keeps (slice defaults, OneOf lists); value-typed defaults cannot be aliased and are covered by the repeated-execution clause")
 	defer h.Finish()
